@@ -10,5 +10,7 @@ CONSTANTS
   CrashBudget = 0
   AdvBudget = 0
   Debris <- NoDebris
+  FrontKind = "plain"
+  KeyShards <- NoKeyShards
 POSTCONDITION Accepted
 CHECK_DEADLOCK FALSE
